@@ -223,6 +223,17 @@ class DictT(Ty):
                        z3.FreshConst(z3.ArraySort(self.key.sort(), self.val.sort()), "emptyvals"))
 
 
+class MapT(Ty):
+    """total map (spec-level / ghost): a z3 array"""
+
+    def __init__(self, key, val):
+        self.key, self.val = key, val
+        self.name = f"Map_{key.name}_{val.name}"
+
+    def sort(self):
+        return z3.ArraySort(self.key.sort(), self.val.sort())
+
+
 class TupT(Ty):
     def __init__(self, *elems):
         self.elems = list(elems)
